@@ -87,7 +87,14 @@ WORDS = ["qr", "QR", "1", "Python QR tool", "script", "\\-\\-help", ".SH NAME",
          "7.4.2", "6 Feb 2023", "\t", ".THX", "#", "'"]
 VERSIONS = ["7.4.2", "7.5", "8.0", "8.0rc1", "8.0.dev0", "10.11.12", "1", "",
             "7.4.2 ", " 7.5", "8.0+local.1", "v8", "8.0 beta", "7.4.2.post1",
-            "\\-1", "1'2", "6 Feb 2023", "QR"]
+            "\\-1", "1'2", "6 Feb 2023", "QR",
+            # case / blank variants of each other (a sloppy comparison treats them as equal)
+            "8.0RC1", "V8", "7.5 ", "8.0  beta", " ", "  ",
+            # regex / template / format metacharacters (a replacement template, a format
+            # string or a pattern built from the version must not interpret them)
+            "8.1\\1", "8.1\\g<2>", "\\\\8", "8\\n1", "8.1\\d", "\\0", "\\g<0>", "%s", "%d",
+            "8%", "{0}", "{}", "{version}", "$1", "${x}", ".*", "[8]", "(8)", "8|9", "^8$",
+            "a&b", "8.1\\", "\\"]
 
 
 def _gen_quoted(rng):
@@ -124,6 +131,10 @@ def _gen_header(rng):
     nq = rng.choice([2, 2, 3, 3, 3, 4, 5])
     sep = rng.choice([" ", " ", "  ", "\t", ""])
     fields = [_gen_quoted(rng) for _ in range(nq)]
+    if rng.random() < 0.1:
+        fields[1] = fields[0]            # date and version fields with identical text
+    if rng.random() < 0.05:
+        fields[1] = sep if sep else " "  # version field equal to the blank between fields
     line = ".TH " + title + (" " if title else "") + section + (" " if section else "")
     line += sep.join(f'"{f}"' for f in fields)
     line += rng.choice(["", "", " trailing", " \\\" comment", "  ", " x y"])
@@ -147,6 +158,17 @@ def gen_page(rng, tier):
             # a second header-shaped line further down: the header is the first
             # one, the second is "every other line" and must stay untouched
             lines.insert(rng.randint(pos + 1, len(lines)), _gen_header(rng))
+    if has_header and rng.random() < 0.2:
+        # body lines that repeat the header's version / date text verbatim (a global
+        # search-and-replace would touch them)
+        hi, hq = find_header(lines)
+        if hi is not None and len(hq) >= 4:
+            h = lines[hi]
+            ver, date = h[hq[2] + 1:hq[3]], h[hq[0] + 1:hq[1]]
+            extra = rng.choice([f"version {ver} of {date}", f'"{ver}"', f'.SH "{date}" "{ver}"',
+                                f"{ver}", f'x "{ver}" y "{date}"'])
+            if find_header([extra])[0] is None:
+                lines.insert(rng.randint(0, len(lines)), extra)
     page = "\n".join(lines)
     if lines and rng.random() < 0.85:
         page += "\n"
@@ -195,9 +217,11 @@ def generate(rng, tier, opts=None):
     steps = []
     now = start
     hdr_i, hdr_q = find_header(split_lines(page))
+    hdr_fields = []
     if hdr_i is not None:
         line = split_lines(page)[hdr_i]
         used.append(line[hdr_q[2] + 1:hdr_q[3]])
+        hdr_fields = [line[hdr_q[2 * k] + 1:hdr_q[2 * k + 1]] for k in range(len(hdr_q) // 2)]
     for _ in range(nsteps):
         kind, fn = rng.choice(JUMPS)
         jump = _jump_seconds(kind, fn, rng, now)
@@ -212,6 +236,8 @@ def generate(rng, tier, opts=None):
         r = rng.random()
         if used and r < 0.4:
             version = rng.choice(used)      # same / previously applied version
+        elif hdr_fields and r < 0.47:
+            version = rng.choice(hdr_fields)     # equals another field of the header
         else:
             version = rng.choice(VERSIONS)
         if name != "qrcode" and rng.random() < 0.4:
